@@ -20,7 +20,7 @@ func init() {
 type kcache = kademlia.Cache[[]byte]
 type kentry = kademlia.Entry[[]byte]
 
-func tm(k int64) time.Time { return time.Time{}.Add(time.Duration(k)) }
+func tm(k int64) time.Time    { return time.Time{}.Add(time.Duration(k)) }
 func tmOff(t time.Time) int64 { return int64(t.Sub(time.Time{})) }
 
 func sxZ(z int64) sx.V {
